@@ -784,9 +784,9 @@ def run(ck):
     for bad in c18_tables.cross_check(tab):
         ck.violation("C18/hash/grow-limit-expression", "ArenaHashBase::_rehash computed a grow limit different from uint32(prime*0.9): %s" % (bad,),
                      {"row": list(bad), "broken": "translator cross-check of the prime table"}, no_input=True)
-    if tab["consts"] != "slot_count=8 min_slot=16 max_slot=2048 block_header=16 alloc_overhead=32 sso=30":
-        ck.violation("C18/constants", "layout constants of Arena/String changed: %s (the model hard-codes the pinned values)" % tab["consts"],
-                     {"consts": tab["consts"], "broken": "constants of ArenaModel.v / StrModel.v"}, no_input=True)
+    if tab["consts"] != "slot_count=8 min_slot=16 max_slot=2048 block_header=16 alloc_overhead=32 sso=30 hash_mul=65599 hash_add=7 astr32_embedded=27 bitword=64 tree_red_mask=1 tree_node=16 list_node=16 hash_node=16":
+        ck.violation("C18/constants", "layout / algorithm constants of Arena, String, Support::hash_char, ArenaString, ArenaBitSet, ArenaTree changed: %s (the models hard-code the pinned values)" % tab["consts"],
+                     {"consts": tab["consts"], "broken": "constants of ArenaModel.v / StrModel.v / NameHashModel.v / BitSetModel.v / TreeModel.v"}, no_input=True)
     if table_failures:
         # the regenerated tables do not check: judge the table-independent theorems against the committed snapshot and
         # count the table-dependent ones as broken
